@@ -5,17 +5,21 @@
   (`newParametersFromLiteral`, `newParameters`, `genModuli`, `bgvNew`, `withinTable`, …), for every
   oracle `o : Oracle` (primality test + the generator's two float comparisons) unless stated.
 
-  Findings recorded here as theorems about the model (each reproduced on the real code by a probe):
-    * `accepted_sound_counterexample_bits`   62-bit q accepted      (CheckModuli tests Len64-1 > 61)
-    * `accepted_sound_counterexample_shared` the same prime in Q and P accepted
-    * `rejected_no_panic_counterexample_panic` negative root order ⇒ `1 << negative` panics
-    * `rejected_no_panic_counterexample_hang`  root order ≥ 2^64 ⇒ the generator never returns
-    * `bgv_qmul_counterexample`               bgv's auxiliary basis QMul can contain the primes of Q
-    * `genModuli_spec_counterexample`         GenModuli(17,[16]) returns 65537 (not 1 mod 2^17)
-    * `exported_above_table`                  three shipped bootstrapping sets are above the table
+  The model follows /repo WITH the fixes /verif/fixes/C19-1 … C19-6 applied.  The six defects
+  these fixes remove were theorems of this file before (`accepted_sound_counterexample_bits`,
+  `…_shared`, `rejected_no_panic_counterexample_panic`, `…_hang`, `bgv_qmul_counterexample`,
+  `genModuli_spec_counterexample`); their witnesses are now `example`s of *rejection*, and the
+  main statements hold at full strength:
+    * `accepted_sound`      Q ∪ P pairwise distinct primes, ≡ 1 mod NthRoot, < 2^61 (⇒ 8q ≤ 2^64)
+    * `rejected_no_panic`   every literal, with or without size requests: accept or `err`
+    * `genModuli_spec`      no precondition on the sizes any more (enforced by the code)
+    * `bgv_accepted`        the auxiliary basis is disjoint from Q
+  Still open (known findings, not fixed): `exported_above_table` — three shipped bootstrapping
+  default literals are above the table / not instantiable as shipped.
 -/
 import Lattigo.Proofs.Params
 import Lattigo.Proofs.ParamsGen
+import Lattigo.Proofs.ParamsTerm
 
 namespace Lattigo.Params
 open Lattigo
@@ -25,91 +29,77 @@ def PrimeSound (o : Oracle) : Prop := ∀ n, o.isPrime n = true → Nat.Prime n
 
 /-! ## accepted_sound -/
 
-/-
-  Full-strength statement (FALSE of the code, see the two counterexamples below):
-
-    newParametersFromLiteral o fuel lit = .ok a →
-      (a.q ++ a.p).Nodup ∧ ∀ m ∈ a.q ++ a.p, Nat.Prime m ∧ m % a.nthRoot = 1 ∧ len64 m ≤ 61
-
-  What the code enforces instead: Q and P are *separately* duplicate-free, `q < 2^62` (62 bits)
-  and `p < 2^63` (63 bits).  `8q ≤ 2^64` (needed by the lazy NTT butterflies and `MRedLazy`,
-  /repo/ring/ntt.go:169) needs `q < 2^61`.
--/
-
-/-- **accepted_sound_partial** — an accepted literal has `MinLogN ≤ logN ≤ MaxLogN`, a ring type in
-    {Standard, ConjugateInvariant}, a non-empty duplicate-free Q, a duplicate-free P, every modulus
-    prime and `≡ 1 mod NthRoot`, `q < 2^62` and `p < 2^63`.
-    Gap to the full statement: distinctness across `Q ∪ P`, and the bound `< 2^61`. -/
-theorem accepted_sound_partial (o : Oracle) (ho : PrimeSound o) (fuel : Nat) (lit : Literal)
+/-- **accepted_sound** (full strength) — an accepted literal has `MinLogN ≤ logN ≤ MaxLogN`, a ring type
+    in {Standard, ConjugateInvariant}, a non-empty Q, and the moduli of `Q ∪ P` are pairwise distinct
+    primes, `≡ 1 mod NthRoot`, of bit length ≤ 61 — the exact bound `CheckModuli` enforces
+    (`m < 2^61`), which gives `8m ≤ 2^64`, what the lazy NTT and `MRedLazy` need. -/
+theorem accepted_sound (o : Oracle) (ho : PrimeSound o) (fuel : Nat) (lit : Literal)
     (a : Accepted) (h : newParametersFromLiteral o fuel lit = .ok a) :
     MinLogN ≤ (a.logN : Int) ∧ (a.logN : Int) ≤ MaxLogN ∧ (a.ringType = 0 ∨ a.ringType = 1) ∧
-    a.q ≠ [] ∧ a.q.Nodup ∧ a.p.Nodup ∧
-    (∀ m ∈ a.q ++ a.p, Nat.Prime m ∧ m % a.nthRoot = 1) ∧
-    (∀ m ∈ a.q, m < 2 ^ 62) ∧ (∀ m ∈ a.p, m < 2 ^ 63) := by
+    a.q ≠ [] ∧ (a.q ++ a.p).Nodup ∧
+    ∀ m ∈ a.q ++ a.p, Nat.Prime m ∧ m % a.nthRoot = 1 ∧ len64 m ≤ 61 ∧ 8 * m ≤ 2 ^ 64 := by
   obtain ⟨q, p, h'⟩ := newParametersFromLiteral_ok h
   have f := newParameters_ok h'
   refine ⟨by rw [f.logN_eq]; exact f.logN_ge, by rw [f.logN_eq]; exact f.logN_le,
-    by rw [f.rt_eq]; exact f.rt_ok, by rw [f.q_eq]; exact f.q_ne, by rw [f.q_eq]; exact f.q_nodup,
-    by rw [f.p_eq]; exact f.p_nodup, ?_, by rw [f.q_eq]; exact f.q_bits, by rw [f.p_eq]; exact f.p_bits⟩
+    by rw [f.rt_eq]; exact f.rt_ok, by rw [f.q_eq]; exact f.q_ne,
+    by rw [f.q_eq, f.p_eq]; exact f.qp_nodup, ?_⟩
   intro m hm
   rw [f.q_eq, f.p_eq] at hm
-  rcases List.mem_append.mp hm with hm | hm
-  · exact ⟨ho m (f.q_prime m hm), f.q_ntt m hm⟩
-  · exact ⟨ho m (f.p_prime m hm), f.p_ntt m hm⟩
+  have key : o.isPrime m = true ∧ m % a.nthRoot = 1 ∧ m < 2 ^ 61 := by
+    rcases List.mem_append.mp hm with hm | hm
+    · exact ⟨f.q_prime m hm, f.q_ntt m hm, f.q_bits m hm⟩
+    · exact ⟨f.p_prime m hm, f.p_ntt m hm, f.p_bits m hm⟩
+  exact ⟨ho m key.1, key.2.1, (len64_le_iff m 61).mpr key.2.2, by have := key.2.2; omega⟩
 
-/-- the witness: a 62-bit prime, `≡ 1 mod 32` -/
-def witness62 : Nat := 4611686018427387617
-
-theorem witness62_log2 : Nat.log2 witness62 = 61 := by decide +kernel
-
-/-- **accepted_sound_counterexample_bits** — `{LogN: 4, Q: [4611686018427387617]}` is accepted by
-    every oracle that calls the witness prime (it is: `ring.IsPrime` says so, and so does the
-    driver's Miller–Rabin, next example), although it has 62 bits: `8q > 2^64`. -/
-theorem accepted_sound_counterexample_bits (o : Oracle) (hp : o.isPrime witness62 = true) (fuel : Nat) :
-    newParametersFromLiteral o fuel { logN := 4, q := some [witness62] }
-      = .ok { logN := 4, q := [witness62], p := [], ringType := 0 }
-    ∧ ¬ (len64 witness62 ≤ 61) ∧ ¬ (8 * witness62 ≤ 2 ^ 64) := by
-  refine ⟨?_, by decide +kernel, by decide⟩
-  have := witness62_log2
-  unfold witness62 at *
-  simp [newParametersFromLiteral, newParameters, checkSizeParams, checkModuli, firstIdx, tooManyBits, hp,
-    newRingFromType, newRing, subRingCheck, firstSome, allDistinct, isPow2, MaxLogN, MinLogN,
-    MinRingDegree, MaxModuliSize, len64, this]
-
-/-- non-vacuity: the executable oracles do call the witness prime -/
-example : goOracle.isPrime witness62 = true ∧ exactOracle.isPrime witness62 = true := by
-  constructor <;> decide +kernel
-
-/-- **accepted_sound_counterexample_shared** — `{LogN: 4, Q: [97], P: [97]}` is accepted: the moduli
-    of `Q ∪ P` are not pairwise distinct (only Q and P separately are checked). -/
-theorem accepted_sound_counterexample_shared (o : Oracle) (hp : o.isPrime 97 = true) (fuel : Nat) :
-    ∃ a, newParametersFromLiteral o fuel { logN := 4, q := some [97], p := some [97] } = .ok a
-      ∧ ¬ (a.q ++ a.p).Nodup := by
-  refine ⟨{ logN := 4, q := [97], p := [97], ringType := 0 }, ?_, by decide⟩
-  have : Nat.log2 97 = 6 := by decide +kernel
-  simp [newParametersFromLiteral, newParameters, checkSizeParams, checkModuli, firstIdx, tooManyBits, hp,
-    newRingFromType, newRing, subRingCheck, firstSome, allDistinct, isPow2, MaxLogN, MinLogN,
-    MinRingDegree, MaxModuliSize, len64, this]
-
-example : goOracle.isPrime 97 = true := by decide +kernel
-
-/-- non-vacuity of `accepted_sound_partial`: an accepted literal exists -/
+/-- non-vacuity: an accepted literal exists -/
 example : newParametersFromLiteral exactOracle 10 { logN := 4, q := some [97], p := some [193] }
     = .ok { logN := 4, q := [97], p := [193], ringType := 0 } := by decide +kernel
+
+/-- the former counterexample (a 62-bit prime, `≡ 1 mod 32`, accepted before fix C19-1) is rejected -/
+example : newParametersFromLiteral exactOracle 10 { logN := 4, q := some [4611686018427387617] }
+    = .err "qBits:0" := by decide +kernel
+
+/-- the former counterexample (the same prime in Q and P, accepted before fix C19-2) is rejected -/
+example : newParametersFromLiteral exactOracle 10 { logN := 4, q := some [97], p := some [97] }
+    = .err "qpNotDistinct" := by decide +kernel
 
 /-! ## rejected_no_panic — the decision table -/
 
 /-- **decision_table** — `NewParameters` accepts (warnings aside) *exactly* the literals meeting
-    `Requirements` (degree range, ring type, non-empty duplicate-free Q, duplicate-free P, every
-    modulus prime for the oracle, `≡ 1 mod 2^(logN+1+ringType)`, `q < 2^62`, `p < 2^63`). -/
+    `Requirements` (degree range, ring type, non-empty Q, `Q ∪ P` duplicate-free, every modulus
+    prime for the oracle, `≡ 1 mod 2^(logN+1+ringType)`, `< 2^61`). -/
 theorem decision_table (o : Oracle) (logN : Int) (q p : List Nat) (rt : Nat) :
     (∃ a, newParameters o logN q p rt false false = .ok a) ↔ Requirements o logN q p rt :=
   ⟨fun ⟨_, h⟩ => requirements_of_ok h, fun h => ⟨_, newParameters_complete h⟩⟩
 
-/-- **rejected_no_panic** — with explicit moduli (no `LogQ`/`LogP`), every literal is either accepted
-    or rejected with an error class — never a panic, never non-termination — and a literal violating
-    any requirement is rejected with an error. -/
-theorem rejected_no_panic (o : Oracle) (fuel : Nat) (lit : Literal)
+/-- **never_panics** — no literal whatsoever makes the constructor panic (any oracle, any fuel). -/
+theorem never_panics (o : Oracle) (fuel : Nat) (lit : Literal) :
+    newParametersFromLiteral o fuel lit ≠ .panic :=
+  newParametersFromLiteral_ne_panic o fuel lit
+
+/-- **rejected_no_panic** (full strength) — every literal, with explicit moduli or with size requests,
+    is either accepted or rejected with an error class: no panic, no non-termination.
+    Termination needs the generator's stop tests to fire outside the half-bit window
+    (`StopComplete`, true of the exact tests) and `fuel ≥ 2^65` (the loops make at most
+    `2^63 + 2^64` steps). -/
+theorem rejected_no_panic (o : Oracle) (hc : StopComplete o) (fuel : Nat) (hf : 2 ^ 65 ≤ fuel)
+    (lit : Literal) :
+    (∃ a, newParametersFromLiteral o fuel lit = .ok a) ∨
+    (∃ c, newParametersFromLiteral o fuel lit = .err c) := by
+  have h1 := newParametersFromLiteral_ne_panic o fuel lit
+  have h2 := newParametersFromLiteral_ne_hang o hc fuel hf lit
+  cases h : newParametersFromLiteral o fuel lit with
+  | ok a => exact Or.inl ⟨a, rfl⟩
+  | err c => exact Or.inr ⟨c, rfl⟩
+  | panic => exact absurd h h1
+  | hang => exact absurd h h2
+
+/-- non-vacuity of the hypotheses -/
+example : StopComplete exactOracle := exactOracle_stopComplete
+
+/-- **rejected_no_panic_explicit** — with explicit moduli (no `LogQ`/`LogP`) the same holds for every
+    oracle and every fuel, and a literal violating any requirement is rejected with an error. -/
+theorem rejected_no_panic_explicit (o : Oracle) (fuel : Nat) (lit : Literal)
     (hq : lit.logQ = none) (hp : lit.logP = none) :
     ((∃ a, newParametersFromLiteral o fuel lit = .ok a) ∨
      (∃ c, newParametersFromLiteral o fuel lit = .err c)) ∧
@@ -121,9 +111,6 @@ theorem rejected_no_panic (o : Oracle) (fuel : Nat) (lit : Literal)
   rcases tot with ⟨a, ha⟩ | hc
   · exfalso
     apply hnot
-    obtain ⟨q', p', h'⟩ := newParametersFromLiteral_ok ha
-    have hreq := requirements_of_ok h'
-    -- identify q', p' with the literal's lists
     have key : newParametersFromLiteral o fuel lit =
         newParameters o lit.logN (lit.q.getD []) (lit.p.getD []) lit.ringType lit.xsWeight0 lit.xeStd0 ∨
         ∃ c, newParametersFromLiteral o fuel lit = .err c := by
@@ -143,148 +130,101 @@ theorem rejected_no_panic (o : Oracle) (fuel : Nat) (lit : Literal)
 example : newParametersFromLiteral exactOracle 10 { logN := 4, q := some [33] } = .err "qPrime:0" := by
   decide +kernel
 
-/-
-  Full-strength statement for literals with size requests (`LogQ`/`LogP`): the same — FALSE of the
-  code, two counterexamples.
--/
+/-- the literal that made `GenModuli` evaluate `1 << -2` before fix C19-3 is rejected, by every oracle -/
+example (o : Oracle) (fuel : Nat) :
+    newParametersFromLiteral o fuel { logN := -5, logNthRoot := -2, logQ := some [30] } = .err "logNmin" := by
+  simp [newParametersFromLiteral, checkSizeParams, MaxLogN, MinLogN]
 
-/-- **rejected_no_panic_counterexample_panic** — `{LogN: -5, LogNthRoot: -2, LogQ: [30]}`: `GenModuli`
-    is reached before `LogN` is range-checked and evaluates `1 << -2`. -/
-theorem rejected_no_panic_counterexample_panic (o : Oracle) (fuel : Nat) :
-    newParametersFromLiteral o fuel { logN := -5, logNthRoot := -2, logQ := some [30] } = .panic := by
-  simp [newParametersFromLiteral, genModuli, checkSizeParams, checkModuliLogSize, firstIdx,
-    testParamsLogN, MaxLogN, MinLogN, MaxModuliSize]
+/-- the literals on which the generator never returned before fixes C19-3/4 (root orders 2^64 and
+    2^62) are rejected, by every oracle -/
+example (o : Oracle) (fuel : Nat) :
+    newParametersFromLiteral o fuel { logN := 10, logNthRoot := 64, logQ := some [30] }
+      = .err "gen:logNthRoot" ∧
+    newParametersFromLiteral o fuel { logN := 10, logNthRoot := 62, q := some [97], logP := some [61] }
+      = .err "gen:logNthRoot" := by
+  constructor <;>
+    simp [newParametersFromLiteral, genModuli, checkSizeParams, MaxLogN, MinLogN] <;> decide
 
-theorem altLoop_stuck (o : Oracle) (g : Gen) (c : Nat) (hc : c < W) (hr : g.nthRoot = 0)
-    (h1 : o.isPrime c = false) (h2 : o.stopUp g.size c = false) (h3 : o.stopDown g.size c = false) :
-    ∀ fuel, altLoop o g fuel c c true true = (g, .hang) := by
-  intro fuel
-  induction fuel with
-  | zero => rfl
-  | succ f ih =>
-    unfold altLoop
-    have ha : u64add c 0 = c := Nat.mod_eq_of_lt hc
-    have hs : u64sub c 0 = c := by
-      unfold u64sub
-      simp only [Nat.zero_mod, Nat.sub_zero, Nat.add_mod_right]
-      exact Nat.mod_eq_of_lt hc
-    have hgt : ¬ (18446744073709551615 < c) := by unfold W at hc; omega
-    simp [hr, h1, h2, h3, ha, hs, hgt, ih]
-
-/-- **rejected_no_panic_counterexample_hang** — `{LogN: 10, LogNthRoot: 64, LogQ: [30]}`:
-    `uint64(1<<64) = 0`, the candidates `2^30+1` never move, `NextAlternatingPrime` has no exit:
-    for *every* amount of fuel the model is still running. -/
-theorem rejected_no_panic_counterexample_hang (o : Oracle)
-    (h1 : o.isPrime (2 ^ 30 + 1) = false) (h2 : o.stopUp 30 (2 ^ 30 + 1) = false)
-    (h3 : o.stopDown 30 (2 ^ 30 + 1) = false) (fuel : Nat) :
-    newParametersFromLiteral o fuel { logN := 10, logNthRoot := 64, logQ := some [30] } = .hang := by
-  have hstuck := altLoop_stuck o (newGen 30 0) (2 ^ 30 + 1) (by decide) rfl h1 h2 h3 fuel
-  have e1 : (newGen 30 0).next = 2 ^ 30 + 1 := by decide
-  have e2 : (newGen 30 0).prev = 2 ^ 30 + 1 := by decide
-  have e3 : (newGen 30 0).checkNext = true := by decide
-  have e4 : (newGen 30 0).checkPrev = true := by decide
-  have hgen : genPrimes o fuel 2 30 0 1 = .hang := by
-    unfold genPrimes nextPrimes
-    simp only [show (2 : Nat) ≠ 0 by decide, show (2 : Nat) ≠ 1 by decide, if_false, nextAlt,
-      e1, e2, e3, e4, hstuck]
-  have hcount : List.count 30 [30] = 1 := by decide
-  have hall : genAll o fuel 0 [30] [30] = .hang := by
-    unfold genAll genForSize
-    simp only [hcount, show (30 : Nat) ≠ 61 by decide, if_false, hgen]
-  have hdups : List.eraseDupsBy (fun (x1 x2 : Nat) => x1 == x2) [30] = [30] := by decide
-  simp [newParametersFromLiteral, genModuli, checkSizeParams, checkModuliLogSize, firstIdx,
-    testParamsLogN, MaxLogN, MinLogN, MaxModuliSize, u64shl, W, List.eraseDups, hdups, hall]
-
-/-- non-vacuity: the exact oracle satisfies the three hypotheses (`2^30+1 = 5²·13·41·61·1321`) -/
-example : exactOracle.isPrime (2 ^ 30 + 1) = false ∧ exactOracle.stopUp 30 (2 ^ 30 + 1) = false ∧
-    exactOracle.stopDown 30 (2 ^ 30 + 1) = false := by
+/-- the single-direction loops return the exhaustion error where they used to spin (fix C19-4) -/
+example : genPrimes exactOracle 10 1 5 64 1 = .err "exhausted" ∧
+    genPrimes exactOracle 10 0 63 (2 ^ 63) 1 = .err "exhausted" ∧
+    genPrimes exactOracle 10 2 30 0 1 = .err "exhausted" := by
   refine ⟨by decide +kernel, by decide +kernel, by decide +kernel⟩
-
-/-- **rejected_no_panic_partial** — the literal constructor panics only if the root order handed to
-    `GenModuli`, `max(LogN+1 (or +2), LogNthRoot)`, is negative.  (Gap: non-termination is not
-    excluded — it occurs for root orders ≥ 2^62, see the counterexample.) -/
-theorem rejected_no_panic_partial (o : Oracle) (fuel : Nat) (lit : Literal)
-    (hroot : 0 ≤ max (lit.logN + (if lit.ringType = 0 then 1 else 2)) lit.logNthRoot) :
-    newParametersFromLiteral o fuel lit ≠ .panic := by
-  intro h
-  have := newParametersFromLiteral_panic h
-  omega
-
-example : (0 : Int) ≤ max ((10 : Int) + (if (0 : Nat) = 0 then 1 else 2)) 0 := by decide
 
 /-! ## bgv: checks on the plaintext modulus and the auxiliary basis -/
 
-/-
-  Full-strength statement: `bgvNew o fuel a t = .ok b →` (t prime, coprime to Q, `t ≡ 1 mod 2·nT`,
-  `nT` a ring degree ≥ 8) `∧ ∀ m ∈ b.qMul, m ∉ a.q` (the auxiliary basis of the scale-invariant
-  multiplication is coprime to Q).  The last conjunct is FALSE of the code (counterexample below).
--/
-
-/-- **bgv_accepted_partial** — `bgv.NewParameters` accepts `t` only if `t ≠ 0`, `t ∉ Q`, `t ≤ Q[0]`,
-    `t` is prime, the plaintext ring degree `nT = min(N, order/2) ≥ 8` with `t ≡ 1 mod 2·nT`
-    (so `t` need *not* be `1 mod 2N`: the plaintext ring is then smaller), and the auxiliary basis
-    consists of distinct primes `≡ 1 mod 2N`.  Gap: nothing relates the auxiliary basis to Q. -/
-theorem bgv_accepted_partial (o : Oracle) (ho : PrimeSound o) (fuel : Nat) (a : Accepted) (t : Nat)
+/-- **bgv_accepted** (full strength) — `bgv.NewParameters` accepts `t` only if `t` is prime, `t ∉ Q`
+    (so coprime to Q), `t ≤ Q[0]`, the plaintext ring degree `nT = min(N, order/2) ≥ 8` with
+    `t ≡ 1 mod 2·nT` (`t` need not be `1 mod 2N`: the plaintext ring is then smaller), and the
+    auxiliary basis consists of distinct primes `≡ 1 mod 2N` none of which is in Q. -/
+theorem bgv_accepted (o : Oracle) (ho : PrimeSound o) (fuel : Nat) (a : Accepted) (t : Nat)
     (b : BgvAccepted) (h : bgvNew o fuel a t = .ok b) :
     Nat.Prime t ∧ t ∉ a.q ∧ t ≤ a.q.headD 0 ∧ 8 ≤ b.nT ∧ b.nT ≤ a.n ∧ t &&& (2 * b.nT - 1) = 1 ∧
-    b.qMul.Nodup ∧ ∀ m ∈ b.qMul, Nat.Prime m ∧ m &&& (2 * a.n - 1) = 1 := by
-  obtain ⟨_, h2, h3, h4, _, h6, h7, h8, h9, _, h11⟩ := bgvNew_ok h
+    b.qMul.Nodup ∧ (∀ m ∈ b.qMul, Nat.Prime m ∧ m &&& (2 * a.n - 1) = 1) ∧
+    ∀ m ∈ b.qMul, m ∉ a.q := by
+  obtain ⟨_, h2, h3, h4, _, h6, h7, h8, h9, _, h11, h12⟩ := bgvNew_ok h
   refine ⟨ho t h4, h2, h3, h7, by rw [h6]; exact Nat.min_le_left _ _, h8, h9,
-    fun m hm => ⟨ho m (h11 m hm).1, (h11 m hm).2⟩⟩
+    fun m hm => ⟨ho m (h11 m hm).1, (h11 m hm).2⟩, h12⟩
 
-/-- **bgv_qmul_counterexample** — with Q made of the first 61-bit primes below `2^61` that are
-    `1 mod 2N` (what `GenModuli`/users pick for 61-bit moduli), the auxiliary basis generated by
-    `bgv.NewParameters` *contains Q*: the "extended basis" of `MulScaleInvariant` is not a basis. -/
-theorem bgv_qmul_counterexample :
+/-- the former counterexample (Q = the first 61-bit primes `1 mod 2N` below `2^61`, which the auxiliary
+    basis contained before fix C19-5): the basis now starts after them -/
+example :
     bgvNew exactOracle 100000
         { logN := 6, q := [2305843009213689601, 2305843009213689089], p := [], ringType := 0 } 65537
-      = .ok { nT := 64, qMul := [2305843009213689601, 2305843009213689089, 2305843009213687297] } := by
+      = .ok { nT := 64, qMul := [2305843009213687297, 2305843009213686401, 2305843009213685377] } := by
   decide +kernel
 
-/-- non-vacuity of `bgv_accepted_partial` with a plaintext modulus that is *not* `1 mod 2N`
-    (`t = 17`, `2N = 128`): accepted with the plaintext ring degree 8 -/
+/-- non-vacuity with a plaintext modulus that is *not* `1 mod 2N` (`t = 17`, `2N = 128`):
+    accepted with the plaintext ring degree 8 -/
 example : bgvNew exactOracle 100000 { logN := 6, q := [786433], p := [], ringType := 0 } 17
     = .ok { nT := 8, qMul := [2305843009213689601] } := by decide +kernel
 
 /-! ## genModuli_spec -/
 
-/-- **genModuli_spec** — if `GenModuli(L, logQ, logP)` returns `(q, p)` then, provided the primality
-    oracle is sound, the generator's two float comparisons are exact (`StopSound`), `L ≥ 1` and no
-    requested size is below `L`:  `q`/`p` answer the requests in order, every modulus is a prime
-    `≡ 1 mod 2^L` with `|log2 m − size| < 1/2` (exact arithmetic: `2^(2s) < 2m²`, `m² < 2^(2s+1)`),
-    and the moduli of `q ++ p` are pairwise distinct. -/
+/-- **genModuli_spec** (full strength) — if `GenModuli(L, logQ, logP)` returns `(q, p)` then, provided
+    the primality oracle is sound and the generator's two float comparisons are exact (`StopSound`):
+    `5 ≤ L ≤ 22`, `q`/`p` answer the requests in order, every modulus is a prime `≡ 1 mod 2^L` with
+    `|log2 m − size| < 1/2` (exact arithmetic: `2^(2s) < 2m²`, `m² < 2^(2s+1)`), and the moduli of
+    `q ++ p` are pairwise distinct.  The precondition "no size below the root order" is now enforced
+    by the code (fix C19-6), as is the range of `L` (fix C19-3). -/
 theorem genModuli_spec (o : Oracle) (ho : PrimeSound o) (hs : StopSound o) (fuel : Nat) (L : Int)
-    (logQ logP : List Int) (q p : List Nat) (hL : 1 ≤ L) (hroot : ∀ s ∈ logQ ++ logP, L ≤ s)
+    (logQ logP : List Int) (q p : List Nat)
     (h : genModuli o fuel L logQ logP = .ok (q, p)) :
+    5 ≤ L ∧ L ≤ 22 ∧
     List.Forall₂ (fun s m => Nat.Prime m ∧ m % 2 ^ L.toNat = 1 ∧
         2 ^ (2 * s.toNat) < 2 * (m * m) ∧ m * m < 2 ^ (2 * s.toNat + 1)) logQ q ∧
     List.Forall₂ (fun s m => Nat.Prime m ∧ m % 2 ^ L.toNat = 1 ∧
         2 ^ (2 * s.toNat) < 2 * (m * m) ∧ m * m < 2 ^ (2 * s.toNat + 1)) logP p ∧
     (q ++ p).Nodup := by
-  obtain ⟨a, b, c⟩ := genModuli_ok o hs fuel L logQ logP q p hL hroot h
-  exact ⟨List.Forall₂.imp (fun _ _ g => ⟨ho _ g.prime, g.ntt, g.lo, g.hi⟩) a,
+  obtain ⟨l1, l2, a, b, c⟩ := genModuli_ok o hs fuel L logQ logP q p h
+  exact ⟨l1, l2, List.Forall₂.imp (fun _ _ g => ⟨ho _ g.prime, g.ntt, g.lo, g.hi⟩) a,
     List.Forall₂.imp (fun _ _ g => ⟨ho _ g.prime, g.ntt, g.lo, g.hi⟩) b, c⟩
 
-/-- non-vacuity (and a test, not a theorem about all inputs): the generator does return moduli -/
+/-- non-vacuity (a test, not a theorem about all inputs): the generator does return moduli -/
 example : genModuli exactOracle 1000 6 [10, 10] [11] = .ok ([1153, 1217], [2113]) := by decide +kernel
 
-/-- **genModuli_spec_counterexample** — the hypothesis `L ≤ size` is forced: for the size 16 and the
-    root order 2^17 the generator returns the Fermat prime `2^16+1`, which is not `1 mod 2^17`. -/
-theorem genModuli_spec_counterexample :
-    genModuli exactOracle 1000 17 [16] [] = .ok ([65537], []) ∧ 65537 % 2 ^ 17 ≠ 1 := by
-  constructor <;> decide +kernel
+/-- the former counterexample (size 16 below the root order 2^17 gave the Fermat prime 65537, which
+    is not `1 mod 2^17`) is rejected -/
+example : genModuli exactOracle 1000 17 [16] [] = .err "logQbelowRoot:0" := by decide +kernel
+
+/-- `GenModuli` terminates and never panics -/
+theorem genModuli_total (o : Oracle) (hc : StopComplete o) (fuel : Nat) (hf : 2 ^ 65 ≤ fuel)
+    (L : Int) (logQ logP : List Int) :
+    genModuli o fuel L logQ logP ≠ .panic ∧ genModuli o fuel L logQ logP ≠ .hang :=
+  ⟨genModuli_ne_panic o fuel L logQ logP, genModuli_ne_hang o hc fuel hf L logQ logP⟩
 
 /-! ## exported_within_table -/
 
 /-- **exported_within_table** — every exported example/default parameter set (rlwe, bgv, ckks,
     /repo/examples, bootstrapping residual and full chains; dump of the real code, tied by the
-    `exported … known=1` lines) that is not recorded as a finding satisfies
+    `exported … known=1` lines) that is not recorded as a known finding satisfies
     `log2(Q·P) < table(logN, secret) + 1/2`. A statement about today's literals. -/
 theorem exported_within_table :
     ∀ s ∈ exportedSets, s.checked = true → s.above = false → s.within = true := by
   decide +kernel
 
-/-- **exported_above_table** — the three recorded findings are indeed above the table, by
+/-- **exported_above_table** — the three known findings (not fixed: the shipped bootstrapping literals
+    `N16QP1793H32768H32`, `N15QP768H192H32`, `N15QP880H16384H32`) are indeed above the table, by
     89, 81 and 131 bits (`bitlen(QP) − table`). -/
 theorem exported_above_table :
     ∀ s ∈ exportedSets, s.above = true → s.within = false ∧ s.checked = true := by
@@ -398,18 +338,14 @@ theorem accepted_logNthRoot (o : Oracle) (fuel : Nat) (lit : Literal) (a : Accep
 
 end Lattigo.Params
 
-#print axioms Lattigo.Params.accepted_sound_partial
-#print axioms Lattigo.Params.accepted_sound_counterexample_bits
-#print axioms Lattigo.Params.accepted_sound_counterexample_shared
+#print axioms Lattigo.Params.accepted_sound
 #print axioms Lattigo.Params.decision_table
+#print axioms Lattigo.Params.never_panics
 #print axioms Lattigo.Params.rejected_no_panic
-#print axioms Lattigo.Params.rejected_no_panic_counterexample_panic
-#print axioms Lattigo.Params.rejected_no_panic_counterexample_hang
-#print axioms Lattigo.Params.rejected_no_panic_partial
-#print axioms Lattigo.Params.bgv_accepted_partial
-#print axioms Lattigo.Params.bgv_qmul_counterexample
+#print axioms Lattigo.Params.rejected_no_panic_explicit
+#print axioms Lattigo.Params.bgv_accepted
 #print axioms Lattigo.Params.genModuli_spec
-#print axioms Lattigo.Params.genModuli_spec_counterexample
+#print axioms Lattigo.Params.genModuli_total
 #print axioms Lattigo.Params.exported_within_table
 #print axioms Lattigo.Params.exported_above_table
 #print axioms Lattigo.Params.galoisElement_def
